@@ -33,7 +33,8 @@ fn reg_op(rng: &mut Rng) -> Vec<u16> {
     }
 }
 
-/// plant: 0 none, 1 unimplemented opcode, 2 access outside mapped memory
+/// plant: 0 none, 1 unimplemented opcode, 2 access outside mapped memory, 3/4 the same with the
+/// exit address directly behind the failing instruction (the failure still ends the run with its error)
 pub fn gen_prog(rng: &mut Rng, target_scaled: u64, plant: u8) -> Prog {
     gen_prog_tail(rng, target_scaled, plant, None)
 }
@@ -74,13 +75,16 @@ pub fn gen_prog_tail(rng: &mut Rng, target_scaled: u64, plant: u8, tail: Option<
     let mut loops_left = nloops;
     let mut shape_loops = 0;
     let mut shape_io = 0;
-    let plant_at = if plant != 0 { 1 + rng.below(nblocks) } else { 99 };
+    let plant_at = if plant != 0 { 1 + rng.below(nblocks - 1) } else { 99 };
     for b in 0..nblocks {
         if b == plant_at {
             match plant {
-                1 => a.w(0x0000),
+                // NOP, SLEEP, LDC #imm, ORC, SUBX, DAA: valid H8/300H instructions this emulator rejects
+                1 | 3 => a.w(*rng.pick(&[0x0000u16, 0x0180, 0x0700, 0x0401, 0x1e12, 0x0f03])),
                 _ => a.mov_b_from_abs24(8, 0x300000),
             }
+            // plant 3/4: the exit address is the address right behind the failing instruction
+            a.label("behind_fault");
         }
         let kind = if loops_left > 0 && (b % 2 == 0 || nblocks - b <= loops_left) { 0 } else { 1 + rng.below(4) };
         match kind {
@@ -200,7 +204,7 @@ pub fn gen_prog_tail(rng: &mut Rng, target_scaled: u64, plant: u8, tail: Option<
     a.label("exit");
     a.w(0x5470);
     let (image, labels) = a.finish();
-    let exit_vaddr = labels["exit"] - BASE;
+    let exit_vaddr = if plant >= 3 { labels["behind_fault"] - BASE } else { labels["exit"] - BASE };
     Prog {
         image,
         exit_vaddr,
@@ -502,9 +506,11 @@ pub fn traced_run_from(elf_path: &str, args: &str, with_twin: bool, max_ticks: u
 
 pub fn c13_case(rep: &mut Report, seed: u64, verbose: bool) -> bool {
     let mut rng = Rng::new(seed);
-    let plant = match rng.below(5) {
-        0 => 1,
-        1 => 2,
+    let plant = match rng.below(10) {
+        0 | 1 => 1,
+        2 | 3 => 2,
+        4 => 3,
+        5 => 4,
         _ => 0,
     };
     // totals on both sides of 1-4 sync thresholds (scaled states)
